@@ -157,7 +157,9 @@ def monitor_request_target_forms(ctx):
     """`wwh retryloc`: every interactive endpoint x failure cause (no matching ingress, provider refusing / failing / unreachable,
     session store down, missing login cookie) x way of writing the request line (origin-form, absolute-form naming the ingress or a
     foreign host, scheme without / with empty authority, doubled slash, foreign Host header) x X-Forwarded-Host absent / naming the
-    configured ingress, through the real router, automatic retry redirects followed by a cookie-keeping browser.
+    configured ingress, and x SPELLING of the request path (dot segments climbing out of and back into the path, leading //host/,
+    duplicate slashes before / inside the prefix, trailing slash, %2e%2e / %2f, ;params) under every configured prefix,
+    through the real router, automatic retry redirects followed by a cookie-keeping browser.
     From the property text: every Location wonderwall itself emits - the automatic retry 307s included - resolves, as a browser
     resolves it against the URL it believes to be at (configured ingress origin + request path), to a configured ingress origin,
     or is an operator-configured default (identity provider endpoint, post-logout URI, SSO default redirect URL): never to a
@@ -181,10 +183,12 @@ def monitor_request_target_forms(ctx):
     origin_of = {u: parse_origin(x) for u, x in zip(allowed_urls, res[len(pairs):])}
     sigs = set()
     n_foreign_named = 0
+    n_spelled = 0
     for r, x in zip(with_loc, res):
         o = parse_origin(x)
         allowed = {origin_of[u] for u in r["ingresses"] + list(r["configured_defaults"].values())}
         foreign = "evil" in (r["request_target"] + r["host_header"]).lower()
+        n_spelled += "path spelling" in r["request_target_form"]
         n_foreign_named += foreign
         sigs.add((r["mode"], r["request_target_form"], bool(r["x_forwarded_host"]), r["endpoint"], r["fault"], r["status"], o[:3]))
         if o[0] == "F":
@@ -198,10 +202,11 @@ def monitor_request_target_forms(ctx):
             case["location_resolves_to"] = x
             ctx.violation("c04-redirect-to-request-line-host",
                           "a redirect wonderwall generates itself (error path / automatic retry) leaves the configured ingress origins and "
-                          "operator-configured defaults: its Location names a host taken from the request line or Host header", case)
+                          "operator-configured defaults: its Location names a host taken from the request line (request target / request path) or Host header", case)
     ctx.evals += len(recs)
     ctx.extra["request_target_forms"] = {"responses": len(recs), "with_location": len(with_loc),
                                          "requests_naming_a_foreign_host_with_location": n_foreign_named,
+                                         "path_spellings_answered_with_location": n_spelled,
                                          "driver": out.strip().split("\n")[-1]}
     return len(sigs)
 
@@ -387,7 +392,7 @@ def run(ctx):
         if shown < 8 and case.get("canonical") not in ("b'/'", "b'/pre'") and (shown % 2 == 0 or rule != "same-origin"):
             ctx.samples.append(case)
             shown += 1
-    ctx.rule = ("exhaustive strings over {/ \\ . % 2 F 5 C a : @ ? # SP TAB LF CR VT} up to length 5 (thorough: also lengths 6-7 over {/ \\ . % 5 C a TAB}) as redirect parameter through the real "
+    ctx.rule = ("exhaustive strings over {/ \\ . % 2 F 5 C a : @ ? # SP TAB LF CR VT} up to length 4 plus lengths 5-6 over {/ \\ . % 5 C a TAB} (thorough: length 5 over the full alphabet, 6-7 over the sub-alphabet) as redirect parameter through the real "
                 "StandaloneRedirect.Canonical + http.Redirect and through isValidAbsolutePath; up to length 3/4 through every other function "
                 "(url.Parse, ParseRequestURI, String, RelativeValidator, AbsoluteValidator, SSO server / SSO proxy Canonical and Clean, http.Redirect); "
                 "16 absolute-URL templates around the SSO domain with an exhaustively enumerated hole (20-symbol host alphabet, length <= 2/3); the strings of "
@@ -405,7 +410,12 @@ def run(ctx):
                 "without path prefix, SSO server), retry redirects followed for up to 6 requests, plus single failing login / callback requests over 10 spellings of the "
                 "authority part (userinfo with escapes, empty userinfo, IPv6 literal, scheme only) x 19 spellings of the query (redirect parameter repeated, undecodable, "
                 "with ';', off-site, backslash, '#' tails); every Location resolved by Node against the ingress URL, and every 307 Location / error-page retry link "
-                "compared with Model/RetryUri.v. "
+                "(those of the path spellings below included) compared with Model/RetryUri.v; "
+                "PATH SPELLINGS (origin-form, the ingress's own Host header): every interactive endpoint under every configured prefix of these configurations and of a "
+                "standalone instance with auto-login, written as {leading //host/ + .. / x/../.. / %2e%2e back to the path, ///host/, /\\host/, /%2Fhost/, duplicate slash before the path / "
+                "after the prefix / inside the prefix / inside the endpoint path, /./ before and after the prefix, /x/../ and /../ before the path, /../ and /%2e%2e/ climbing out of and back "
+                "into the prefix, prefix doubled, trailing / /. /x/.., /%2e/, %2f for the slashes, ;params on the first / last segment} x {login ok / provider refusing / unreachable / "
+                "with a session, callback without login cookie, logout with / without session / store down, logout callback, local logout ok / store down, front-channel logout}. "
                 "distinct_nontrivial = cases whose canonical redirect is not the fallback")
     ctx.assumptions += [
         "browsers are represented by the WHATWG URL algorithm (Model/Whatwg.v for the theorems, Node 20's implementation for the monitor); the model is validated against Node only",
